@@ -625,7 +625,9 @@ Definition starts_with_flags_read (p : opc) : bool :=
    (callout begin/end).  It accepts exactly what the model lets a thread do with the word: every write is one of the
    model's transitions (the generated rmw bodies applied to the value the thread last observed), the futex wake follows
    a finalize that saw a waiter, an event handler callout starts only if the thread's last read of the word had neither
-   CANCELED nor RELEASED, a cancel handler callout only if it had CANCELED and DELETED. *)
+   CANCELED nor RELEASED, a cancel handler callout only if it had CANCELED and DELETED, and each such read allows one callout.
+   Proofs/SrcLife_mon_proofs.v: every step of SrcLife.gstep, seen as the events `emit` below, is accepted (the monitor never
+   rejects what the model does); the converse does not hold and is not claimed: the monitor sees one thread and one word. *)
 Record mst := mkM { m_last : option Z; m_wake : bool }.
 Definition has (z : Z) (b : Z) : bool := Z.testbit z b.
 Definition is_commit (o : rmw_outcome) (n : Z) : bool := match o with Commit x _ => x =? n | _ => false end.
@@ -644,7 +646,7 @@ Definition mon_step (kt kd : Z) (m : mst) (e : event) : option mst :=
     | None => None
     | Some old =>
         let fin := is_commit (flags_set_and_clear_loop 0 DSF_DELETED (Z.lor DSF_NEEDS_EVENT DSF_CANCEL_WAITER) old) (eb e) in
-        if fin || is_commit (cancel_and_wait_loop 0 old kt kd) (eb e) then
+        if fin || is_commit (cancel_and_wait_loop 0 old kt kd) (eb e) || is_commit (refs_unregister_loop 0 0 old) (eb e) then
           if eok e =? 1 then (if ea e =? old then Some (mkM (Some (eb e)) (fin && has old BIT_WAITER)) else None)
           else Some (mkM (Some (ea e)) false)
         else None
@@ -663,15 +665,74 @@ Definition mon_step (kt kd : Z) (m : mst) (e : event) : option mst :=
   else if k =? DVU_CALLOUT_BEGIN then
     match m_last m with
     | None => None
-    | Some v => if ea e =? 0 then (if negb (has v BIT_CANCELED) && negb (has v BIT_RELEASED) then Some m else None)
-                else if ea e =? 2 then Some m      (* registration handler: guarded by a plain read the hook does not see *)
-                else (if has v BIT_CANCELED && has v BIT_DELETED then Some m else None)
+    | Some v =>
+        (* the read that allowed the callout is used up: the next callout needs a new read of the word *)
+        if ea e =? 0 then (if negb (has v BIT_CANCELED) && negb (has v BIT_RELEASED) then Some (mkM None false) else None)
+        else if ea e =? 2 then Some m      (* registration handler: guarded by a plain read the hook does not see *)
+        else (if has v BIT_CANCELED && has v BIT_DELETED then Some (mkM None false) else None)
     end
   else if (k =? DVU_CALLOUT_END) || (k =? DVU_CALL) || (k =? DVU_RET) || (k =? DVU_MARK) then Some m
   else None.
 (* sv = 2 * is_timer + is_direct *)
 Definition conform (sv : Z) (tr : list event) : Z * Z :=
   let '(m, i) := run_trace (mon_step (sv / 2) (sv mod 2)) (mkM None false) tr 0 in (i, if m_wake m then 0 else 1).
+
+(* ------------------------------------------------------------------ the events a model step stands for (on dq_atomic_flags, plus
+   the callout marks), for the link between gstep and mon_step.  Values of the word are the five modelled bits. *)
+Definition enc (f : flags) : Z :=
+  (if canceled f then DSF_CANCELED else 0) + (if waiter f then DSF_CANCEL_WAITER else 0) + (if needs_event f then DSF_NEEDS_EVENT else 0) +
+  (if deleted f then DSF_DELETED else 0) + (if released f then DQF_RELEASED else 0).
+Definition commit_of (o : rmw_outcome) (dflt : Z) : Z := match o with Commit n _ => n | _ => dflt end.
+Definition fin_new (f : flags) : Z :=
+  commit_of (flags_set_and_clear_loop 0 DSF_DELETED (Z.lor DSF_NEEDS_EVENT DSF_CANCEL_WAITER) (enc f)) (enc f).
+Definition ne_new (f : flags) : Z := commit_of (refs_unregister_loop 0 0 (enc f)) (enc f).
+Definition caw_new (k : kind) (f : flags) : Z :=
+  commit_of (cancel_and_wait_loop 0 (enc f) (b2z (k_timer k)) (b2z (k_direct k))) (enc f).
+Definition E_ (kd a b ok : Z) : event := mkEv kd 0 0 0 4 a b ok.
+Definition E_load (v : Z) : event := E_ DV_LOAD v v 1.
+Definition emit_action (f : flags) (a : action) : list event :=
+  match a with
+  | AFinalize w _ => [E_load (enc f); E_ DV_CASW (enc f) (fin_new f) 1] ++ (if w then [E_ DV_FUTEX_WAKE 0 0 1] else [])
+  | ANeedsEvent => if needs_event f || deleted f then [E_load (enc f)] else [E_load (enc f); E_ DV_CASW (enc f) (ne_new f) 1]
+  | ARegCallout true => [E_ DVU_CALLOUT_BEGIN 2 1 1; E_ DVU_CALLOUT_END 2 0 1]
+  | AEhBegin => [E_ DVU_CALLOUT_BEGIN 0 1 1] | AEhEnd => [E_ DVU_CALLOUT_END 0 0 1]
+  | AChBegin => [E_ DVU_CALLOUT_BEGIN 1 1 1] | AChEnd => [E_ DVU_CALLOUT_END 1 0 1]
+  | _ => []
+  end.
+(* the program points whose phase starts with a read of dq_atomic_flags (Gen: flags_reading_points, and the locked path of
+   cancel_and_wait: source.c:1066, :1070, the wakeup of :1073) *)
+Definition reads_flags (k : kind) (o : orc) (p : opc) : bool :=
+  match p with
+  | OP1 | OP2 | OP3b | OP4b | OCD1 | OCD2 | OCD3 => true
+  | OA2 => k_timer k && c_cfg o
+  | _ => false
+  end.
+Definition emit_phase (k : kind) (o : orc) (p : opc) (f : flags) (acts : list action) : list event :=
+  (if reads_flags k o p then [E_load (enc f)] else []) ++ flat_map (emit_action f) acts.
+Definition emit (g : gst) (t : Z) (a : act) (acts : list action) : list event :=
+  let f := fl (g_s g) in
+  match a with
+  | GCancel _ => [E_ DV_OR (enc f) DSF_CANCELED 1]
+  | GRelease => [E_ DV_OR (enc f) DQF_RELEASED 1]
+  | GActivate _ => E_load (enc f) :: flat_map (emit_action f) acts
+  | GInvoke _ => [E_load (enc f)]                         (* _dispatch_queue_class_invoke *)
+  | GPhase o => emit_phase (g_k g) o (o_pc g) f acts
+  | GCawEnter => match m_caw_loop (g_k g) f with
+                 | Some _ => [E_load (enc f); E_ DV_CASW (enc f) (caw_new (g_k g) f) 1]
+                 | None => [E_load (enc f)]
+                 end
+  | GCawStep lock _ =>
+      match cpc g t with
+      | CDecide o n => if deleted o || waiter n || activated g then [] else E_load (enc f) :: flat_map (emit_action f) acts
+      | CWLoad => [E_load (enc f)]
+      | CWTest d => if deleted d || waiter d then []
+                    else [E_ DV_CAS (enc f) (Z.lor (enc d) DSF_CANCEL_WAITER) (if flags_eqb f d then 1 else 0)]
+      | CWFutex d => [E_ DV_FUTEX_WAIT (enc d) 0 1]
+      | _ => []
+      end
+  | GFutexRet => [E_ DV_FUTEX_WAIT_RET 0 0 1]
+  | GMergeData | GEvent _ | GHangup | GEvMerge => []
+  end.
 
 (* ------------------------------------------------------------------ this platform: unregistration always succeeds
    (_dispatch_unote_unregister: custom filters, timers and _dispatch_unote_unregister_muxed all return true; there are
